@@ -744,3 +744,146 @@ func wholeInputRule(w *World, r *Report, prop string) {
 		r.fail(rule, "start-rule calls found", "internal/parser", "no function of the parser package invokes a start rule of the generated parser")
 	}
 }
+
+// */computed-fields-are-single: a length or checksum field is one number.
+//
+// No generator has an emission for "repeat" combined with a length-of or checksum attribute (the wire matrix treats those cells as
+// not producible; the Go emitter falls into its "is not supported" marker line). The parse phase therefore has to make the
+// combination impossible: wherever it turns an existing field into a length / checksum field (a store of a LengthFieldAttribute or
+// CheckSumFieldAttribute into Field.Attr of a field it did not just construct with IsRepeat false), the store is dominated by
+// the edge on which the field's IsRepeat is false.
+func computedFieldsSingle(w *World, r *Report, prop string) {
+	rule := prop + "/computed-fields-are-single"
+	n := 0
+	for _, fn := range parsePhaseFuncs(w) {
+		cnt := 0
+		forEachInstr(fn, func(b *ssa.BasicBlock, ins ssa.Instruction) {
+			st, ok := ins.(*ssa.Store)
+			if !ok {
+				return
+			}
+			fa, ok := st.Addr.(*ssa.FieldAddr)
+			if !ok {
+				return
+			}
+			if tn, f, _, _ := fieldOf(fa); tn != "Field" || f != "Attr" {
+				return
+			}
+			mi, ok := st.Val.(*ssa.MakeInterface)
+			if !ok {
+				return
+			}
+			kind := modelTypeName(mi.X.Type())
+			if kind != "LengthFieldAttribute" && kind != "CheckSumFieldAttribute" {
+				return
+			}
+			n++
+			cnt++
+			key := fmt.Sprintf("%s makes a %s #%d only of a field that is not repeated", fnKey(fn), kind, cnt)
+			holder := stripIdentity(fa.X)
+			if al, ok := holder.(*ssa.Alloc); ok && al.Referrers() != nil {
+				// a freshly constructed field: IsRepeat must not be assigned anything but false
+				bad := false
+				for _, ref := range *al.Referrers() {
+					f2, ok := ref.(*ssa.FieldAddr)
+					if !ok || f2.Referrers() == nil {
+						continue
+					}
+					if _, fname, _, _ := fieldOf(f2); fname != "IsRepeat" {
+						continue
+					}
+					for _, r2 := range *f2.Referrers() {
+						if s2, ok := r2.(*ssa.Store); ok && s2.Addr == ssa.Value(f2) {
+							if k, ok := s2.Val.(*ssa.Const); !ok || k.Value == nil || constant.BoolVal(k.Value) {
+								bad = true
+							}
+						}
+					}
+				}
+				if bad {
+					r.fail(rule, key, w.instrPos(st), "the field is constructed with an IsRepeat that may be true")
+				} else {
+					r.pass(rule, key, w.instrPos(st), "constructed with IsRepeat false")
+				}
+				return
+			}
+			// the field already is of this kind (a resolved attribute replaces the provisional one): nothing new is made
+			already := false
+			forEachInstr(fn, func(_ *ssa.BasicBlock, i2 ssa.Instruction) {
+				ta, ok := i2.(*ssa.TypeAssert)
+				if !ok || !ta.CommaOk || modelTypeName(ta.AssertedType) != kind || ta.Referrers() == nil {
+					return
+				}
+				l2, ok := stripIdentity(ta.X).(*ssa.UnOp)
+				if !ok || l2.Op != token.MUL {
+					return
+				}
+				afa, ok := l2.X.(*ssa.FieldAddr)
+				if !ok {
+					return
+				}
+				if tn, fname, _, _ := fieldOf(afa); tn != "Field" || fname != "Attr" || stripIdentity(afa.X) != holder {
+					return
+				}
+				for _, ref := range *ta.Referrers() {
+					if ex, ok := ref.(*ssa.Extract); ok && ex.Index == 1 && ex.Referrers() != nil {
+						for _, r3 := range *ex.Referrers() {
+							if iff, ok := r3.(*ssa.If); ok && edgeDominates(iff.Block(), 0, b) {
+								already = true
+							}
+						}
+					}
+				}
+			})
+			if already {
+				r.pass(rule, key, w.instrPos(st), "the field already is a "+kind)
+				return
+			}
+			// an existing field: a dominating test of its IsRepeat
+			guarded := false
+			for _, bb := range fn.Blocks {
+				cond := branchCond(bb)
+				if cond == nil {
+					continue
+				}
+				// the conditions of a short-circuit chain are separate branches; look at each
+				val := true
+				c := cond
+				for {
+					if u, ok := c.(*ssa.UnOp); ok && u.Op == token.NOT {
+						c, val = u.X, !val
+						continue
+					}
+					break
+				}
+				ld, ok := stripIdentity(c).(*ssa.UnOp)
+				if !ok || ld.Op != token.MUL {
+					continue
+				}
+				f3, ok := ld.X.(*ssa.FieldAddr)
+				if !ok {
+					continue
+				}
+				if tn, fname, _, _ := fieldOf(f3); tn != "Field" || fname != "IsRepeat" || stripIdentity(f3.X) != holder {
+					continue
+				}
+				// successor on which IsRepeat is false
+				succ := 1
+				if !val {
+					succ = 0
+				}
+				if edgeDominates(bb, succ, b) {
+					guarded = true
+				}
+			}
+			if guarded {
+				r.pass(rule, key, w.instrPos(st), "dominated by !IsRepeat")
+			} else {
+				r.fail(rule, key, w.instrPos(st), "a field written with `repeat` in front of it can become a "+kind+": no generator emits anything sensible for a repeated length / checksum field (the Go emitter prints its 'is not supported' marker into the source, the others treat it as a single number) and compilation still succeeds")
+			}
+		})
+	}
+	if n == 0 {
+		r.fail(rule, "computed-field constructions found", "internal/parser/packet_dsl_parser.go", "no store of a length / checksum attribute into a field found in the parse phase")
+	}
+}
